@@ -3,6 +3,7 @@ package main
 import (
 	"bytes"
 	"fmt"
+	"io"
 	"io/ioutil"
 	"path/filepath"
 	"strings"
@@ -227,8 +228,41 @@ func mutateDoc(r *rng, d []byte) []byte {
 	return md
 }
 
+// deliveryFor picks, from the document itself, how its bytes are delivered to the reader: all at once,
+// one byte at a time, in 3-byte reads or in halves. The result must not depend on it (C17), so every
+// codec stream also exercises line terminators and fixed-size blocks cut between two reads.
+func deliveryFor(doc []byte) io.Reader {
+	h := uint32(2166136261)
+	for _, b := range doc {
+		h = (h ^ uint32(b)) * 16777619
+	}
+	switch h % 4 {
+	case 1:
+		sizes := make([]int, len(doc))
+		for i := range sizes {
+			sizes[i] = 1
+		}
+		return &schedReader{data: append([]byte(nil), doc...), sizes: sizes, end: "eof", limit: -1}
+	case 2:
+		sizes := make([]int, len(doc)/3+1)
+		for i := range sizes {
+			sizes[i] = 3
+		}
+		return &schedReader{data: append([]byte(nil), doc...), sizes: sizes, end: "weof", limit: -1}
+	case 3:
+		var sizes []int
+		for rem := len(doc); rem > 0; {
+			n := (rem + 1) / 2
+			sizes = append(sizes, n)
+			rem -= n
+		}
+		return &schedReader{data: append([]byte(nil), doc...), sizes: sizes, end: "eof", limit: -1}
+	}
+	return bytes.NewReader(doc)
+}
+
 func readOut(format string, doc []byte) string {
-	s, err := readWith(format, bytes.NewReader(doc))
+	s, err := readWith(format, deliveryFor(doc))
 	if err != nil {
 		return errClass(err)
 	}
